@@ -88,6 +88,9 @@ def _kinds() -> List[dict]:
     add("path-lambda", BOOL, lambda s, n: ast.CollectionLambda(ast.Attribute(fld("parent"), "children"), ast.Any(), lam(s, n)),
         root="child", tags=("lambda", "path"))
     add("custom-call", UNK, lambda s, n: ast.Call(I("fn", ("ns",)), [fld("name"), ast.String(s)]), tags=("custom",))
+    add("named-builtin", BOOL, lambda s, n: ast.Call(I("contains"), [ast.NamedParam(I("field"), fld("name")),
+                                                                     ast.NamedParam(I("substr"), ast.String(s))]), tags=("named",))
+    add("named-builtin-1", STR, lambda s, n: ast.Call(I("tolower"), [ast.NamedParam(I("field"), fld("name"))]), tags=("named",))
     add("named-params", UNK, lambda s, n: ast.Call(I("fn", ("ns",)), [ast.NamedParam(I("p"), ast.String(s)),
                                                                        ast.NamedParam(I("q"), ast.Integer(str(n)))]), tags=("custom", "named"))
     # every built-in function with typical (well-typed) arguments
@@ -210,6 +213,7 @@ def outcome(bi: int, ki: int, pi: int, s: str, n: int):
     tree = p["wrap"](k["build"](s, n), k["root"])
     try:
         out = b["run"](tree, k["root"])
+        out = b["run"](tree, k["root"])     # translating the same parsed tree again must behave the same way
     except exceptions.ODataException as e:
         return ("refused", type(e).__name__)
     except NotImplementedError as e:
